@@ -51,6 +51,8 @@ class Desc:
     w: Optional[Fraction] = None  # scalar weight (None = not written = 1)
     tr: Optional[List[Fraction]] = None  # transition list
     implicit: bool = False        # not written: inserted by the notation's automatic descriptor insertion
+    pre: str = ""                 # bond characters written in front of a TERMINAL descriptor ("=" / "#"), inherited by the descriptor that is
+                                  # inserted automatically on the neighbouring token (inside tokens the bond character is part of the SMILES text)
 
     def weight(self):
         if self.tr is not None:
@@ -60,7 +62,7 @@ class Desc:
     def text(self, ext=True, style=0, ws=""):
         if self.sym == "":
             return "[]"
-        s = "[" + self.sym + ("" if self.id < 0 else str(self.id))
+        s = self.pre + "[" + self.sym + ("" if self.id < 0 else str(self.id))
         if ext and self.tr is not None:
             s += "|" + ws + " ".join(fmt_num(t, style) for t in self.tr) + ws + "|"
         elif ext and self.w is not None:
@@ -120,7 +122,7 @@ class Token:
                 out += x
             else:
                 k += 1
-                out += f"[{k}*]"
+                out += x.pre + f"[{k}*]"
         return out
 
     def chem(self):
@@ -224,9 +226,19 @@ class Mol:
         return out
 
 
+def _terminal(text):
+    """a terminal descriptor, optionally with bond characters in front: "=[$]" """
+    pre = ""
+    while text and text[0] in "=#":
+        pre, text = pre + text[0], text[1:]
+    d = parse_desc(text)
+    d.pre = pre
+    return d
+
+
 def S(left, rep, end, right, dist=None):
     """Compact constructor: S("[<]", ["[<]CC[>]"], ["[<][H]"], "[>]", ("gauss", [40, 0]))."""
-    return Sto(parse_desc(left), [Token.of(t) for t in rep], [Token.of(t) for t in end], parse_desc(right),
+    return Sto(_terminal(left), [Token.of(t) for t in rep], [Token.of(t) for t in end], _terminal(right),
                Dist(dist[0], list(dist[1])) if dist else None)
 
 
